@@ -11,7 +11,8 @@ RULE = ("case = generated design biased to connections (whole signals, slices, b
         "through ports across a 3-level hierarchy, chains whose writer is a slice/field of an earlier net's reader) x "
         "5 orderings (order.stmt permutation of all statements per component, order.flip of connect sides, "
         "dup.connect, order.hash object-hash stream) x 2 schedulers x 4..8 cycles; non-trivial = >=3 nets with >=2 "
-        "signal members (clk/reset excluded) and >=1 net whose writer is a slice or field; distinct = case digest")
+        "signal members (clk/reset excluded) and >=1 net whose writer is a slice or field; distinct = case digest. "
+        "4% of the cases: the driver of a net is written only inside a helper function reached through 1-3 call levels")
 TIERS = {"quick": {"runs": 960, "budget_s": 100, "chunk": 4},
          "thorough": {"runs": 120000, "budget_s": 1800, "chunk": 8}}
 REAL = ["connect / //= (ComponentLevel3._connect_*)", "_collect_vars adjacency merge", "_floodfill_nets",
